@@ -45,13 +45,15 @@ def extract(g, X):
         b = X.fn_body(st, "next_lexeme")
         m = re.search(r"for\s+\w+\s+in\s+0\s*\.\.\s*(" + B + r")\s*\{", b)
         loop = X.item_body(b[m.start():], r"\{", "octal loop")
-        # the digit test, in either polarity: `if (LO..=HI).contains(&d) { eat } else { break }` / `if !(…) { break }`
-        c = re.search(r"\bif\s+([^{;]+?)\s*\{", loop)       # the first test in the loop is the digit test
-        cond = c.group(1)
-        digits = X.byte_set(cond, None, st)
-        blk = X.item_body(loop[c.start():], r"\{", "digit test block")
-        if re.match(r"\s*break\b", blk):
-            digits = X.ALL_BYTES - digits
+        # the loop body is RUN for every value of the byte it peeks: the digits are the bytes on which it does not leave the
+        # loop (polarity of the test, if/else vs early `break`, `matches!` / range `contains` / is_ascii_* are all the same)
+        c = re.search(r"let\s+(\w+)\s*=\s*self\.peek_byte\(\)\?\s*;", loop).group(1)
+        t = X.tabulate_local(loop, c, st, scopes=[b])
+        digits = set(v for v, o in t.items() if o.how == "value")
+        if any(o.how not in ("value", "break") for o in t.values()) or not digits:
+            raise ValueError("octal loop leaves otherwise than by break")
+        if any(not any(re.fullmatch(r"self\.next_byte\(\)\?;?", e) for e in t[v].effects) for v in digits):
+            raise ValueError("a digit is not consumed")
         lo, hi = min(digits), max(digits)
         if digits != set(range(lo, hi + 1)):
             raise ValueError("octal digits are not a range")
@@ -70,11 +72,12 @@ def extract(g, X):
     g.attempt([("hexstr_ws", "list N")], "lexer/str.rs:HexStringLexer::next_non_whitespace_char", hexws)
 
     def hexdig():
-        tabs = X.hex_nibble_tables(X.fn_body(st, "next_hex_byte"))
+        tabs = X.hex_nibble_tables(X.fn_body(st, "next_hex_byte"), st)
         rows = [X.ordered_by_key(r, [48, 65, 97]) for r, _, _ in tabs]
-        if len(rows) != 2 or rows[0] != rows[1]:
+        if len(rows) != 2 or rows[0] != rows[1] or not rows[0]:
             raise ValueError("high/low nibble arms differ or missing")
-        (end,) = [v for _, singles, _ in tabs for v, e in singles if re.fullmatch(r"return\s+Ok\(\s*None\s*\)\s*;?", e)]
+        # the byte on which the first read ends the string: `return Ok(None)`
+        (end,) = [k for k, o in tabs[0][1].items() if o.how == "return" and o.value == ("Ok", ("None",)) and not o.effects]
         return X.ctuples(rows[0]), str(end)
     g.attempt([("hexstr_digits", "list (N * N * N)"), ("hexstr_end", "N")], "lexer/str.rs:HexStringLexer::next_hex_byte", hexdig)
 
@@ -95,37 +98,62 @@ def extract(g, X):
 
     def stream_kw():
         b = X.fn_body(lx, "next_stream")
-        w = re.search(r"let\s*\(\s*_\s*,\s*(\w+)\s*\)\s*=\s*self\.next_word\(\)\?", b)
+        w = re.search(r"let\s*\(\s*_\s*,\s*(\w+)\s*\)\s*=\s*self\.next_word\(\)\?\s*;", b)
         if not w:
             raise ValueError("keyword is no longer located with next_word")
         p = w.group(1)
-        f = re.search(r"let\s+&(\w+)\s*=\s*self\.buf\.get\(\s*" + p + r"\s*\)", b)
-        s2 = re.search(r"let\s+&(\w+)\s*=\s*self\.buf\.get\(\s*" + p + r"\s*\+\s*1\s*\)", b)
+        f = re.search(r"let\s+&?(\w+)\s*=\s*\*?self\.buf\.get\(\s*" + p + r"\s*\)", b)
+        s2 = re.search(r"let\s+&?(\w+)\s*=\s*\*?self\.buf\.get\(\s*" + p + r"\s*\+\s*1\s*\)", b)
         b0, b1 = f.group(1), s2.group(1)
-        lf = re.search(r"if\s+" + b0 + r"\s*==\s*(" + B + r")\s*\{\s*self\.pos\s*=\s*" + p + r"\s*\+\s*(\d+)", b)
-        cr = re.search(r"else\s+if\s+" + b0 + r"\s*==\s*(" + B + r")", b)
-        crlf = re.search(r"if\s+" + b1 + r"\s*!=\s*(" + B + r")", b)
-        p8 = re.findall(r"self\.pos\s*=\s*" + p + r"\s*\+\s*(\d+)", b)
-        return str(iv(lf.group(1))), lf.group(2), str(iv(cr.group(1))), str(iv(crlf.group(1))), p8[-1]
+        # what follows the keyword is RUN for every first byte (and, where the second byte is consulted, for every second
+        # byte): an if / else-if chain, a match on the byte or on the pair give the same table  byte(s) -> new position
+        code = b[w.end():]
+
+        def advance(o):
+            if o.is_err or o.how != "value":
+                return None
+            adv = [re.fullmatch(r"self\.pos = " + p + r" \+ (\d+);?", e) for e in o.effects]
+            if len(adv) != 1 or not adv[0]:
+                raise ValueError("effects of next_stream: %r" % (o.effects,))
+            return int(adv[0].group(1))
+        one, two = {}, {}
+        for v in range(256):
+            try:
+                o = X.rsx.run(X, code, {}, lx, scopes=[b], inject={b0: v})
+                a = advance(o)
+                if a is not None:
+                    one[v] = a
+            except X.rsx.Unknown:
+                for v2 in range(256):
+                    a = advance(X.rsx.run(X, code, {}, lx, scopes=[b], inject={b0: v, b1: v2}))
+                    if a is not None:
+                        two[(v, v2)] = a
+        ((lf, after_lf),) = one.items()
+        ((cr, crlf), after_crlf), = two.items()
+        return str(lf), str(after_lf), str(cr), str(crlf), str(after_crlf)
     g.attempt([("stream_lf", "N"), ("stream_after_lf", "N"), ("stream_cr", "N"), ("stream_cr_lf", "N"), ("stream_after_crlf", "N")],
               "lexer/mod.rs:next_stream", stream_kw)
 
     # ---- serializer (primitive.rs)
     def name_ser():
         b = X.fn_body(pr, "serialize_name")
-        m = re.search(r"\bmatch\s+(\*?\w+)\s*\{", b)
-        v = m.group(1).lstrip("*")
-        raw, esc = None, False
-        for arm in X.match_arms(b, re.escape(m.group(1))):
-            if re.search(r"\.write_all\(\s*&\[\s*" + v + r"\s*\]\s*\)", arm.expr):
-                if raw is not None:
-                    raise ValueError("two raw arms")
-                raw = set(X.pattern_set(arm.pattern, b, pr))
-                if arm.guard:
-                    raw &= X.byte_set(arm.guard, v, pr, body=b)
-            elif arm.pattern == "_" and re.match(r'write!\(\s*\w+\s*,\s*"#\{:02X\}"\s*,\s*' + v + r"\s*\)", arm.expr):
-                esc = True
-        if not esc or not raw:
+        # the body of `for &b in s.as_bytes() { … }` is RUN for every byte: written as it is (write_all(&[b])) or as #XX
+        fm = re.search(r"\bfor\s+&?(\w+)\s+in\s+\w+\.(?:as_bytes\(\)|bytes\(\))\s*\{", b)
+        v = fm.group(1)
+        loop = X.item_body(b[fm.start():], r"\{", "loop over the bytes of the name")
+        t = X.tabulate(loop, v, pr, scopes=[b], is_expr=False)
+        raw = set()
+        for k, o in t.items():
+            if o.how != "value" or len(o.effects) != 1:
+                raise ValueError("byte %d: %r" % (k, o))
+            e = o.effects[0]
+            if re.fullmatch(r"\w+\.write_all\(\s*&\[\s*" + v + r"\s*\]\s*\)\?;?", e):
+                raw.add(k)
+            else:
+                (c,) = X.fmt_calls(e)
+                if c["template"] != b"#\x00:02X\x01" or c["holes"][0][0] != v:
+                    raise ValueError("escape form changed: %r" % e)
+        if not raw or len(raw) == 256:
             raise ValueError("raw / escape arm changed")
         lo, hi = min(raw), max(raw)
         excl = X.ordered(set(range(lo, hi + 1)) - raw, [40, 41, 60, 62, 91, 93, 123, 125, 47, 37, 35])
